@@ -92,11 +92,12 @@ theorem C07_leaf_written_under_leaf_lock_partial (key : K) (f : Option V → V) 
     `rootMutex`. -/
 theorem C07_write_frame (P : Params K) (tree : Tree K V) (progs : List (List (COp K V)))
     (ht : TreeOk none tree) (ho : tree.order = P.order) (hp : PadOk P) (hd : Disciplined progs)
+    (hdel : 4 ≤ tree.order ∨ NoDelete progs)
     (c c' : Config K V) (t : Nat) (hr : Reachable (Config.init P tree progs) c) (hs : c.step t = some c') :
     ∃ th, c.threads[t]? = some th ∧
       (∀ id, id < c.tree.nextId → Lk.node id ∉ stepHeld th → c'.tree.look id = c.tree.look id) ∧
       (Lk.tree ∉ stepHeld th → c'.tree.rootId = c.tree.rootId ∧ c'.tree.depth = c.tree.depth) := by
-  obtain ⟨_, th, hth, hf⟩ := step_cinv blocks_ok c c' t hs (reachable_cinv P tree progs ht ho hp hd c hr)
+  obtain ⟨_, th, hth, hf⟩ := step_cinv blocks_ok c c' t hs (reachable_cinv P tree progs ht ho hp hd hdel c hr)
   exact ⟨th, hth, hf.nodes, hf.root⟩
 
 /-- **C07 (access discipline).** Mutual exclusion and the write frame together: whatever a
@@ -104,10 +105,11 @@ theorem C07_write_frame (P : Params K) (tree : Tree K V) (progs : List (List (CO
     other thread holds — in particular every node another thread holds keeps its fields. -/
 theorem C07_access_discipline (P : Params K) (tree : Tree K V) (progs : List (List (COp K V)))
     (ht : TreeOk none tree) (ho : tree.order = P.order) (hp : PadOk P) (hd : Disciplined progs)
+    (hdel : 4 ≤ tree.order ∨ NoDelete progs)
     (c c' : Config K V) (t j : Nat) (b : Thread K V) (hr : Reachable (Config.init P tree progs) c)
     (hs : c.step t = some c') (hj : c.threads[j]? = some b) (hne : j ≠ t) :
     ∀ id, Lk.node id ∈ b.held → c'.tree.look id = c.tree.look id := by
-  have hinv := reachable_cinv P tree progs ht ho hp hd c hr
+  have hinv := reachable_cinv P tree progs ht ho hp hd hdel c hr
   obtain ⟨_, th, hth, hf⟩ := step_cinv blocks_ok c c' t hs hinv
   obtain ⟨th', hth', hen, _⟩ := step_shape hs
   rw [hth] at hth'
